@@ -248,7 +248,9 @@ type Case struct {
 	Family string `json:"family,omitempty"`
 }
 
-var layoutNames = [4]string{"exact-capacity", "spare-capacity", "prefix-of-longer-slice", "buffer-triangulated-before-with-other-points"}
+var layoutNames = [5]string{"exact-capacity", "spare-capacity", "prefix-of-longer-slice", "buffer-triangulated-before-with-other-points", "spare-capacity-buffer-triangulated-before-with-other-points"}
+
+const numLayouts = 5
 
 // pairwiseLimit: above this many triangles the quadratic interior-overlap test is replaced by its
 // linear consequence for consistently wound triangles (no directed edge used twice).
@@ -300,7 +302,7 @@ func evaluate(pts []P, tr transform, layout int) (label string, fs []finding, tr
 	mine := make([]vector2.Float64, n) // the harness's own copy
 	var in []vector2.Float64           // fresh slice handed to the library
 	switch layout {
-	case 1:
+	case 1, 4:
 		in = make([]vector2.Float64, n, n+8)
 	case 2:
 		long := make([]vector2.Float64, n+5)
@@ -315,7 +317,7 @@ func evaluate(pts []P, tr transform, layout int) (label string, fs []finding, tr
 		mine[i] = tr.apply(p)
 		in[i] = mine[i]
 	}
-	if layout == 3 {
+	if layout == 3 || layout == 4 {
 		// an earlier frame: the points that do not attain the bounding box change places cyclically
 		// (same buffer, same length, same bounding box), the buffer is triangulated, and then the
 		// points of this case are written over it in place
@@ -688,7 +690,7 @@ func run(c *core.Ctx) {
 					rev[len(pts)-1-i] = p
 				}
 				for _, tr := range layoutTransforms {
-					for layout := 1; layout <= 3; layout++ {
+					for layout := 1; layout < numLayouts; layout++ {
 						k.checkAs(pts, tr, "", layout, "")
 						k.checkAs(rev, tr, "", layout, "")
 					}
@@ -704,6 +706,7 @@ func run(c *core.Ctx) {
 	c.Bound("input_slice_layouts", "every general-position subset also with eight elements of spare capacity, as a prefix of a longer slice, and in a buffer that was triangulated before while its inner points stood elsewhere (canonical order and its reverse, transforms identity and scale=2^-10,offset=(+2^10,-2^10))")
 	if done {
 		k.runFamilies()
+		k.runAnnulus()
 	}
 	if !c.Expired() {
 		k.runCounts()
